@@ -47,7 +47,19 @@ RULE = (
     "not be refused when a fresh object determines equal parameters (==) from B; one object decodes the encoded "
     "forms of A, B, A (same object, deserialised copy, RunLength without src_size); BinaryCIFData arrays overwritten "
     "in place and category columns replaced / overwritten between two writes of one file object (also after "
-    "reading it); compress(compress(x)), compress(read(write(compress(x)))). A case counts as non-trivial when the array is "
+    "reading it); compress(compress(x)), compress(read(write(compress(x)))); every family also observes that the "
+    "caller's array is byte-identical after encode / serialize / compress (also when refused); 'alias' = for each "
+    "encoding chain and each column observer (as_array variants, as_item, serialize, deserialize, compress) on the "
+    "reuse palette: arguments unchanged, overwriting a returned array changes neither a second result nor the object "
+    "(written bytes == those of a twin built from private copies); 'flavour' = strided / negative-stride / read-only "
+    "/ big-endian / ndarray-subclass / list / tuple / 0-d versions of the reuse palette and parameters spelled as "
+    "numpy scalars or dtype-likes: same bytes and arrays as the plain contiguous native array with Python "
+    "parameters; 'sizes' = every length 2..40 and the lengths around 64/128/256/16384/32768/65536 for 11 column "
+    "patterns through compress() and 5 chains, string tables whose offsets / indices cross 8 and 16 bit, decimal "
+    "places 0..25 for compress(), 9/10/11/99/100/101 blocks, categories, columns; 'lazy' = all 64 subsets of 6 "
+    "forcing actions on a file that was read x 2 insertion orders: keys, == and != in both directions against the "
+    "written object, an untouched second reading and 7 perturbed files, and the file written again. A case counts "
+    "as non-trivial when the array is "
     "non-empty and the oracle either compared a decoded non-empty array element-wise with the original or "
     "observed the refusal of a value that the model says the representation cannot hold."
 )
@@ -64,6 +76,13 @@ ASSUMPTIONS = [
     "reuse: every auto-determined parameter is documented as taken from the data of the first encode() call, so "
     "an object that has seen A may refuse B (any Exception) unless a fresh object determines equal parameters from "
     "B; a float array is never the FIRST array of a Delta/RunLength/IntegerPacking object (documented integer input)",
+    "aliasing that the unchanged tree has and the statement does not forbid is counted, not judged: BinaryCIFData "
+    "keeps the caller's array, BinaryCIFColumn.as_array() without mask/conversion hands out the stored array "
+    "(documented shortcut for data.array), compress() is documented as no deep copy",
+    "array flavours the statement does not name may be refused (0-d arrays; big-endian: 64-bit integers raise "
+    "KeyError in TypeCode.from_dtype), but never give a different result than the plain array",
+    "a refused first encode() may leave automatically determined parameters behind that make the object refuse a "
+    "later array (counted as unspecified_refusal_after_refused_first_call); it may never alter one",
     "integer arrays are not sent to float ByteArray types nor float arrays to integer ByteArray types "
     "(statement silent on cross-kind casts)",
     "files whose arrays contain NaN are compared array-wise (bit pattern class) instead of with ==, because "
@@ -241,7 +260,26 @@ def pack_cost(data, byte_count):
     return int(np.abs(w).sum() // (127 if byte_count == 1 else 32767)) + len(w)
 
 
+_INPUT_STATE = {"modified": False}
+
+
 def run_paths(arr, chain, allow_big=False):
+    """_run_paths plus the aliasing observation every family shares: neither path may modify the array it
+    is given, whether it succeeds or refuses (recorded in _INPUT_STATE, reported by input_check)."""
+    snap = arr.tobytes()
+    out = _run_paths(arr, chain, allow_big)
+    _INPUT_STATE["modified"] = arr.tobytes() != snap
+    return out
+
+
+def input_check(ctx, case, chain):
+    if _INPUT_STATE["modified"]:
+        _INPUT_STATE["modified"] = False
+        ctx.violation("%s|input_array_modified|%s" % (chain_sig(chain), case.get("dtype", case.get("k"))),
+                      "encoding / serialising changed the caller's array", case)
+
+
+def _run_paths(arr, chain, allow_big=False):
     """Returns (direct, filed, packed): direct/filed are ('ok', decoded ndarray[, encodings equal]) or
     ('exc', phase, class name); (None, None, None) when the cost guard stopped the case."""
     env = _enc()
@@ -387,6 +425,7 @@ def int_case(ctx, dtype, vals, chain, group, allow_big=False):
         return
     arr = np.array(vals, dtype=dtype)
     direct, filed, packed = run_paths(arr, chain, allow_big)
+    input_check(ctx, case, chain)
     if direct is None:
         ctx.count("skipped_pack_cap_observed")
         return
@@ -671,6 +710,7 @@ def float_case(ctx, dtype, xs, chain, group):
         return
     arr = np.array(xs, dtype=dtype)
     direct, filed, packed = run_paths(arr, chain)
+    input_check(ctx, case, chain)
     if direct is None:
         ctx.count("skipped_pack_cap_observed")
         return
@@ -850,6 +890,7 @@ def floatba_case(ctx, dtype, xs, t):
         return
     arr = np.array(xs, dtype=dtype)
     direct, filed, packed = run_paths(arr, chain)
+    input_check(ctx, case, chain)
     compared = refused = False
     fails = []
     for path, res in (("direct", direct), ("file", filed)):
@@ -964,6 +1005,7 @@ def string_case(ctx, strs, table_kind, dname, oname, pal):
     width = max([len(s) for s in strs] + [1])
     arr = np.array(strs, dtype="U%d" % width)
     direct, filed, packed = run_paths(arr, [spec])
+    input_check(ctx, case, [spec])
     compared = refused = False
     fails = []
     tag = "StringArray[%s;%s]" % (chain_sig(dchain), chain_sig(ochain))
@@ -1159,7 +1201,11 @@ def compress_case(ctx, kind, dtype, vals, tol, listed=False):
             v.either("compress", "empty")
     if not ctx.journal(case):
         return
+    snap = arr.tobytes()
     r = with_cpu_limit(CPU_LIMIT, compress_roundtrip, arr, tol)
+    if arr.tobytes() != snap:
+        ctx.violation("compress|input_array_modified|%s" % icls, "compress() / serialising changed the caller's array",
+                      case)
     if r[0] != "ok":
         ctx.violation("compress|did_not_terminate|%s" % ("decimal_places_beyond_float_range" if kind == "float" and
                                                         beyond_float_range(vals, tol, dtype) else icls),
@@ -1829,6 +1875,10 @@ def reuse_encode_case(ctx, kind, ka, kb, chain, cname, source="fresh"):
     ctx.count("accepted" if accept else "refusable")
     if refused:
         ctx.count("refused_observed")
+        if mk is not None and first[0] == "exc" and fresh_ok:
+            # dimension 9: the refused first call left parameters behind that make the object refuse an array a
+            # fresh object takes.  Loud, nothing is altered: the statement is silent -> counted, listed in the notes
+            ctx.count("unspecified_refusal_after_refused_first_call")
     nt = bool(vals_b) and (compared or refused)
     ctx.ev(1, 1 if nt else 0)
     ctx.outcome((ka, kb, cname, compared, refused))
@@ -2172,6 +2222,803 @@ def reuse_replay(case, ctx):
 
 
 # ---------------------------------------------------------------------------
+# audit families: aliasing, array flavours, size switches / many items, laziness / order
+# (differential oracles: equal to what a private / plain / fresh copy gives)
+# ---------------------------------------------------------------------------
+def enc_state(encs):
+    """Comparable snapshot of the parameters of a list of encodings."""
+    env = _enc()
+    out = []
+    for e in encs:
+        try:
+            out.append(env["msgpack"].packb(e.serialize(), use_bin_type=True, default=env["encode_numpy"]))
+        except Exception as ex:  # noqa: BLE001
+            out.append(type(ex).__name__)
+    return out
+
+
+def scramble(a):
+    """Overwrite a writeable array with other values of its own dtype."""
+    if a.dtype.kind == "U":
+        a[...] = "#"
+    elif a.dtype.kind == "f":
+        a[...] = -77.5
+    else:
+        a[...] = 1 if a.dtype.kind == "u" else -1
+
+
+def same_array(a, b):
+    return (isinstance(a, np.ndarray) and isinstance(b, np.ndarray) and a.shape == b.shape
+            and a.dtype.kind == b.dtype.kind and a.tobytes() == b.astype(a.dtype).tobytes())
+
+
+ALIAS_CHAINS = {
+    "int": [[B()], [D(), B()], [R(), B()], [P(1), B()], [P(2, False), B()], [D(), R(), P(2), B()]],
+    "float": [[B()], [F(1000), B()], [Q(-5.0, 5.0, 101), B()], [F(100), D(), P(2), B()]],
+    "str": [[REUSE_STR_SPECS["default"]], [REUSE_STR_SPECS["deep"]],
+            [["S", {"strings": ["c", "b", "a", "", "é", "x" * 300], "data": None, "offset": None}]]],
+}
+
+
+def alias_case(ctx, kind, key, ci):
+    """Dimension 3 for the encodings: a call must not modify its argument; mutating what a call returned
+    must not change a later result of the same object nor the caller's array."""
+    chain = ALIAS_CHAINS[kind][ci]
+    case = {"k": "alias", "f": "codec", "kind": kind, "a": key, "ci": ci}
+    if not ctx.journal(case):
+        return
+    E = _enc()["E"]
+    arr, _ = reuse_array(kind, key)
+    ref = arr.copy()
+    tag = "alias:%s" % (chain_sig(chain) if kind != "str" else "StringArray%d" % ci)
+    encs = [build(s) for s in chain]
+    stages = []
+    data = arr
+    try:
+        for e in encs:
+            stages.append(data)
+            data = e.encode(data)
+    except Exception:  # noqa: BLE001
+        if not same_array(ref, arr):
+            ctx.violation("%s|refused_encode_modified_input|%s" % (tag, kind), "argument changed by a refused call", case)
+        ctx.count("refused_observed")
+        ctx.ev(1, 0)
+        return
+    bad = None
+    if not same_array(ref, arr):
+        bad = "encode_modified_input"
+    state = enc_state(encs)
+    final = data
+    # every intermediate array a stage handed out: overwrite it, then look at the caller's array and encode again
+    for inter in stages[1:]:
+        if isinstance(inter, np.ndarray) and inter.flags.writeable:
+            if np.shares_memory(inter, arr):
+                ctx.count("unspecified_output_shares_memory_with_input")
+                continue
+            scramble(inter)
+    if bad is None and not same_array(ref, arr):
+        bad = "overwriting_encoded_output_changed_input"
+    if bad is None:
+        encs_b = encs
+        try:
+            again = E.encode_stepwise(arr, encs_b)
+            if again != final or enc_state(encs) != state:
+                bad = "second_encode_differs_after_overwriting_first_output"
+        except Exception as ex:  # noqa: BLE001
+            bad = "second_encode_raised_%s" % type(ex).__name__
+    # decoding
+    if bad is None:
+        try:
+            dec = E.decode_stepwise(final, encs)
+            keep = dec.copy()
+            if dec.flags.writeable and not np.shares_memory(dec, arr):
+                scramble(dec)
+            dec2 = E.decode_stepwise(final, encs)
+            if not same_array(keep, dec2):
+                bad = "second_decode_differs_after_overwriting_first_result"
+            elif enc_state(encs) != state:
+                bad = "decode_changed_encoding_parameters"
+            elif not same_array(ref, arr):
+                bad = "decode_modified_encoder_input"
+        except Exception:  # noqa: BLE001
+            ctx.count("refused_observed")  # whether a round trip may fail is judged by the other families
+            if not same_array(ref, arr):
+                bad = "refused_decode_modified_encoder_input"
+    if bad:
+        ctx.violation("%s|%s|%s" % (tag, bad, kind), "aliasing between arguments, results and encoding state", case)
+    ctx.count("accepted")
+    ctx.ev(1, 1 if len(arr) else 0)
+    ctx.outcome(("alias", kind, key, ci, bad))
+
+
+def alias_container_case(ctx, kind, key, masked, op):
+    """Dimension 3 for data / column / compress(): observers and compress() leave the object as it was
+    (same bytes when written, == a twin built from private copies)."""
+    case = {"k": "alias", "f": "container", "kind": kind, "a": key, "masked": masked, "op": op}
+    if not ctx.journal(case):
+        return
+    env = _enc()
+    pdbx = env["pdbx"]
+    arr, _ = reuse_array(kind, key)
+    n = len(arr)
+
+    def make():
+        a = arr.copy()
+        m = None
+        if masked:
+            m = pdbx.BinaryCIFData(np.array([(i + 1) % 3 for i in range(n)], dtype=np.uint8))
+        return pdbx.BinaryCIFColumn(pdbx.BinaryCIFData(a), m), a
+
+    col, own = make()
+    twin, _ = make()
+
+    def written(c):
+        f = pdbx.BinaryCIFFile({"b": pdbx.BinaryCIFBlock({"c": pdbx.BinaryCIFCategory({"x": c})})})
+        return file_bytes(f)
+
+    try:
+        before = written(col)
+        written(twin)  # writing determines the automatic encoding parameters: the twin gets the same treatment
+    except Exception:  # noqa: BLE001
+        ctx.count("unspecified")
+        ctx.ev(1, 0)
+        return
+    res = None
+    try:
+        if op == "as_array":
+            res = col.as_array()
+        elif op == "as_array_str":
+            res = col.as_array(str)
+        elif op == "as_array_str_masked_value":
+            res = col.as_array(str, masked_value="NA")
+        elif op == "as_array_float_masked_value":
+            res = col.as_array(float, masked_value=-1)
+        elif op == "as_array_own_masked_value":
+            res = col.as_array(None, masked_value=("!" if kind == "str" else 9))
+        elif op == "as_item":
+            res = col.as_item()
+        elif op == "compress":
+            res = pdbx.compress(col, 1e-6)
+        elif op == "compress_data":
+            res = pdbx.compress(col.data, 1e-6)
+        elif op == "serialize":
+            res = col.serialize()
+        elif op == "deserialize":
+            ser = col.serialize()
+            snap = env["msgpack"].packb(ser, use_bin_type=True, default=env["encode_numpy"])
+            res = pdbx.BinaryCIFColumn.deserialize(ser)
+            if env["msgpack"].packb(ser, use_bin_type=True, default=env["encode_numpy"]) != snap:
+                ctx.violation("alias:deserialize|content_dict_modified|%s" % kind,
+                              "deserialize() changed the dictionary it was given", case)
+    except Exception:  # noqa: BLE001
+        res = None  # refusing is fine (e.g. as_item of 3 rows, str -> float); the column must still be untouched
+        ctx.count("refused_observed")
+    bad = None
+    if isinstance(res, np.ndarray) and res.flags.writeable:
+        if np.shares_memory(res, own):
+            ctx.count("unspecified_getter_hands_out_internal_array")
+        else:
+            scramble(res)
+    try:
+        after = written(col)
+        if after != before:
+            bad = "written_bytes_differ_after_%s" % op
+        elif not same_array(arr, col.data.array):
+            bad = "data_array_differs_after_%s" % op
+        elif after != written(twin):
+            bad = "written_bytes_differ_from_twin_after_%s" % op
+        elif not (arr.dtype.kind == "f" and bool(np.isnan(arr).any())) and not (col == twin and twin == col):
+            bad = "not_equal_to_twin_after_%s" % op  # (== is undefined for NaN content: array_equal)
+    except Exception as ex:  # noqa: BLE001
+        bad = "write_raised_%s_after_%s" % (type(ex).__name__, op)
+    if bad:
+        ctx.violation("alias:column|%s|%s,%s" % (bad, kind, "masked" if masked else "unmasked"),
+                      "an observer / compress() changed the column it was called on", case)
+    ctx.count("accepted")
+    ctx.ev(1, 1 if n else 0)
+    ctx.outcome(("aliasc", kind, key, masked, op, bad))
+
+
+ALIAS_OPS = ["as_array", "as_array_str", "as_array_str_masked_value", "as_array_float_masked_value",
+             "as_array_own_masked_value", "as_item", "compress", "compress_data", "serialize", "deserialize"]
+
+
+def run_alias_shard(shard, ctx):
+    kind = shard["kind"]
+    arrays, _ = reuse_sets(kind)
+    for key in arrays:
+        for ci in range(len(ALIAS_CHAINS[kind])):
+            alias_case(ctx, kind, key, ci)
+        for masked in (False, True):
+            for op in ALIAS_OPS:
+                alias_container_case(ctx, kind, key, masked, op)
+
+
+# ---- array flavours ----------------------------------------------------------
+class _SubArray(np.ndarray):
+    pass
+
+
+FLAVOURS = ["strided", "negative_stride", "readonly", "bigendian", "subclass", "list", "tuple", "zero_dim"]
+# statement silent: a 0-d array has no length; byte order is not named (unchanged tree: big-endian 64-bit
+# integers raise KeyError in TypeCode.from_dtype, every other big-endian dtype is accepted).  These may be
+# refused; if accepted the result must equal the plain one.
+FLAVOUR_EITHER = {"zero_dim", "bigendian"}
+FLAVOUR_CHAINS = {
+    "int": [None, [B()], [D(), B()], [R(), B()], [P(1), B()], [D(), R(), P(2), B()], "compress"],
+    "float": [None, [B()], [F(1000), B()], [F(100), D(), P(2), B()], [Q(-5.0, 5.0, 101), B()], "compress"],
+    "str": [None, [REUSE_STR_SPECS["default"]], [REUSE_STR_SPECS["deep"]], "compress"],
+}
+
+
+def make_flavour(arr, flavour):
+    if flavour == "strided":
+        big = np.zeros(2 * len(arr) + 1, dtype=arr.dtype)
+        big[1::2] = arr
+        return big[1::2]
+    if flavour == "negative_stride":
+        return np.ascontiguousarray(arr[::-1])[::-1]
+    if flavour == "readonly":
+        a = arr.copy()
+        a.setflags(write=False)
+        return a
+    if flavour == "bigendian":
+        return arr.astype(arr.dtype.newbyteorder(">"))
+    if flavour == "subclass":
+        return arr.copy().view(_SubArray)
+    if flavour == "list":
+        return arr.tolist()
+    if flavour == "tuple":
+        return tuple(arr.tolist())
+    if flavour == "zero_dim":
+        return np.array(arr[0]) if len(arr) else None
+    raise ValueError(flavour)
+
+
+def flavour_result(obj, chain, tol=1e-6):
+    """('ok', packed bytes of the data, decoded array) or ('exc', class)."""
+    env = _enc()
+    pdbx, msgpack = env["pdbx"], env["msgpack"]
+    try:
+        if chain == "compress":
+            d = pdbx.compress(pdbx.BinaryCIFData(obj), tol)
+        else:
+            d = pdbx.BinaryCIFData(obj, None if chain is None else [build(s) for s in chain])
+        ser = d.serialize()
+        packed = msgpack.packb(ser, use_bin_type=True, default=env["encode_numpy"])
+        back = pdbx.BinaryCIFData.deserialize(msgpack.unpackb(packed, use_list=True, raw=False))
+        return ("ok", packed, back.array)
+    except Exception as ex:  # noqa: BLE001
+        return ("exc", type(ex).__name__)
+
+
+def flavour_case(ctx, kind, key, flavour, ci):
+    chain = FLAVOUR_CHAINS[kind][ci]
+    case = {"k": "flavour", "kind": kind, "a": key, "flavour": flavour, "ci": ci}
+    arr, _ = reuse_array(kind, key)
+    if flavour == "bigendian" and (arr.dtype.itemsize == 1 and arr.dtype.kind != "U"):
+        return
+    if flavour in ("list", "tuple") and kind != "str" and str(arr.dtype) not in ("int64", "float64"):
+        return  # a list carries no dtype: comparable only with the default dtypes
+    if flavour in ("list", "tuple") and not len(arr):
+        return  # an empty list carries no dtype either
+    obj = make_flavour(arr, flavour)
+    if obj is None or not ctx.journal(case):
+        return
+    if flavour == "zero_dim":
+        arr = arr[:1].copy()  # documented: a single item is converted into an array
+    plain = flavour_result(arr.copy(), chain)
+    snap = obj.tobytes() if isinstance(obj, np.ndarray) else repr(obj)
+    got = with_cpu_limit(CPU_LIMIT, flavour_result, obj, chain)
+    got = got[1] if got[0] == "ok" else ("exc", "CpuLimit")
+    cname = "plain" if chain is None else (chain if chain == "compress" else
+                                           (chain_sig(chain) if kind != "str" else "StringArray%d" % ci))
+    bad = None
+    if (obj.tobytes() if isinstance(obj, np.ndarray) else repr(obj)) != snap:
+        bad = "input_modified"
+    elif plain[0] == "exc":
+        # the plain array is refused (empty into RunLength, NaN into FixedPoint ...): the flavour must not be
+        # turned into something else silently
+        if got[0] == "ok" and not same_array(arr, got[2]):
+            bad = "accepted_but_altered"
+        ctx.count("refusable")
+    elif got[0] == "exc":
+        if flavour in FLAVOUR_EITHER:
+            ctx.count("unspecified")
+        else:
+            bad = "raised_%s" % got[1]
+    elif got[1] != plain[1] or not same_array(plain[2], got[2]):
+        bad = "differs_from_plain_array"
+    if bad:
+        ctx.violation("flavour:%s|%s|%s,%s" % (flavour, bad, kind, cname),
+                      "array flavour is not handled like a plain contiguous native array", case,
+                      expected=repr(plain[2])[:150] if plain[0] == "ok" else list(plain),
+                      observed=repr(got[2])[:150] if got[0] == "ok" else list(got))
+    if plain[0] == "ok" and got[0] == "ok":
+        ctx.count("accepted")
+    ctx.ev(1, 1 if len(arr) else 0)
+    ctx.outcome(("fl", kind, key, flavour, ci, got[1] if got[0] == "ok" else got))
+
+
+def _np_params(spec):
+    """The same encoding spec with every parameter spelled as a numpy scalar / dtype-like object."""
+    k, p = spec
+    tcs = {1: np.int8, 2: np.dtype("int16"), 3: "int32", 4: np.uint8, 5: ">u2", 6: np.dtype("uint32"),
+           32: np.float32, 33: "float64"}
+    q = {}
+    for name, v in p.items():
+        if v is None:
+            q[name] = None
+        elif name in ("type", "src_type"):
+            q[name] = tcs[v]
+        elif isinstance(v, bool):
+            q[name] = np.bool_(v)
+        elif isinstance(v, int):
+            q[name] = np.int64(v) if name != "byte_count" else np.int8(v)
+        elif isinstance(v, float):
+            q[name] = np.float32(v) if float(np.float32(v)) == v else np.float64(v)
+        else:
+            q[name] = v
+    return [k, q]
+
+
+PARAM_CHAINS = {
+    "int": [[B(I32)], [B(U16)], [D(I32, 5), B(I32)], [D(None, 0), B()], [R(I32, None), B(I32)],
+            [P(1, True), B(U8)], [P(2, False), B(I16)], [P(1, None), B()]],
+    "float": [[B(F32)], [B(F64)], [F(1000, F64), B(I32)], [F(1000.0), B()], [F(0.5, F32), B()],
+              [Q(-5.0, 5.0, 101, F64), B(I32)], [Q(0.0, 2000.0, 2001), B()]],
+}
+
+
+def param_flavour_case(ctx, kind, key, ci, with_size):
+    """Parameters given as numpy scalars / dtype spellings behave like Python numbers / type codes."""
+    chain = [list(x) for x in PARAM_CHAINS[kind][ci]]
+    arr, _ = reuse_array(kind, key)
+    if with_size:
+        chain = [[k, {**p, "src_size": len(arr)}] if k in ("R", "P") else [k, p] for k, p in chain]
+        if not any(k in ("R", "P") for k, _ in chain):
+            return
+    case = {"k": "flavour", "f": "params", "kind": kind, "a": key, "ci": ci, "with_size": with_size}
+    if not ctx.journal(case):
+        return
+    env = _enc()
+    E, pdbx, msgpack = env["E"], env["pdbx"], env["msgpack"]
+
+    def run(specs):
+        try:
+            d = pdbx.BinaryCIFData(arr.copy(), [build(s) for s in specs])
+            packed = msgpack.packb(d.serialize(), use_bin_type=True, default=env["encode_numpy"])
+            u = msgpack.unpackb(packed, use_list=True, raw=False)
+            back = pdbx.BinaryCIFData.deserialize(u)
+            return ("ok", back.array, back.encoding, u["data"])
+        except Exception as ex:  # noqa: BLE001
+            return ("exc", type(ex).__name__)
+
+    plain = run(chain)
+    got = run([_np_params(s) for s in chain])
+    bad = None
+    if plain[0] != got[0]:
+        bad = "plain_%s_numpy_%s" % (plain[0] if plain[0] == "ok" else plain[1], got[0] if got[0] == "ok" else got[1])
+    elif plain[0] == "ok":
+        if plain[3] != got[3] or not same_array(plain[1], got[1]):
+            bad = "encoded_or_decoded_data_differ"
+        elif not same_encodings(plain[2], got[2]):
+            bad = "deserialised_encodings_differ"
+    if bad:
+        ctx.violation("flavour:numpy_parameters|%s|%s" % (bad, chain_sig(chain)),
+                      "parameters given as numpy scalars / dtype spellings behave differently", case)
+    ctx.count("accepted" if plain[0] == "ok" else "refusable")
+    ctx.ev(1, 1 if len(arr) and plain[0] == "ok" else 0)
+    ctx.outcome(("flp", kind, key, ci, with_size, bad))
+
+
+def run_flavour_shard(shard, ctx):
+    kind = shard["kind"]
+    arrays, _ = reuse_sets(kind)
+    for key in arrays:
+        for flavour in FLAVOURS:
+            for ci in range(len(FLAVOUR_CHAINS[kind])):
+                flavour_case(ctx, kind, key, flavour, ci)
+        if kind in PARAM_CHAINS:
+            for ci in range(len(PARAM_CHAINS[kind])):
+                for with_size in (False, True):
+                    param_flavour_case(ctx, kind, key, ci, with_size)
+
+
+# ---- size switches and many items ---------------------------------------------
+SWEEP_SMALL = list(range(2, 41))
+SWEEP_EDGES = [63, 64, 65, 127, 128, 129, 255, 256, 257, 16383, 16384, 16385, 32767, 32768, 32769,
+               65535, 65536, 65537]
+SIZE_PATTERNS = ["const_i32", "ramp_i32", "alt_u8", "saw_i64", "blocks_i16", "big_u32", "ramp_f64", "const_f32",
+                 "uniq_str", "const_str", "alt_str"]
+SIZE_CHAINS = [[R(), B()], [R(), P(1), B()], [D(), R(), P(2), B()], [P(1), B()], [D(), P(1), B()]]
+
+
+def size_array(pattern, n):
+    i = np.arange(n)
+    if pattern == "const_i32":
+        return np.full(n, 7, dtype=np.int32)
+    if pattern == "ramp_i32":
+        return (i - 3).astype(np.int32)
+    if pattern == "alt_u8":
+        return (i % 2 * 255).astype(np.uint8)
+    if pattern == "saw_i64":
+        return (i % 300 - 150).astype(np.int64)
+    if pattern == "blocks_i16":
+        return (i // max(1, n // 3) * 1000 - 1000).astype(np.int16)
+    if pattern == "big_u32":
+        return np.where(i % 7 == 0, 4000000000, i).astype(np.uint32)
+    if pattern == "ramp_f64":
+        return i * 0.001
+    if pattern == "const_f32":
+        return np.full(n, 12.25, dtype=np.float32)
+    if pattern == "uniq_str":
+        return np.array(["s%05d" % k for k in range(n)], dtype="U6")
+    if pattern == "const_str":
+        return np.array(["abc"] * n, dtype="U3")
+    if pattern == "alt_str":
+        return np.array(["", "é"] * (n // 2) + [""] * (n % 2), dtype="U1")
+    raise ValueError(pattern)
+
+
+def exact_or_tol(arr, got, tol):
+    if arr.dtype.kind != "f":
+        return isinstance(got, np.ndarray) and len(got) == len(arr) and \
+            (got.dtype.kind == arr.dtype.kind or (got.dtype.kind in "iu" and arr.dtype.kind in "iu")) and \
+            got.tolist() == arr.tolist()
+    if not isinstance(got, np.ndarray) or got.dtype.kind != "f" or len(got) != len(arr):
+        return False
+    a = arr.astype(np.float64)
+    g = got.astype(np.float64)
+    slack = 4 * np.spacing(np.abs(arr)).astype(np.float64)
+    return bool(np.all(np.abs(g - a) <= tol * np.abs(a) * (1 + 1e-6) + slack))
+
+
+def size_compress_case(ctx, pattern, n, tol=1e-6, arr=None, label=None):
+    case = {"k": "sizes", "f": "compress", "pattern": pattern, "n": n, "tol": tol}
+    if not ctx.journal(case):
+        return
+    if arr is None:
+        arr = size_array(pattern, n)
+    snap = arr.tobytes()
+    r = with_cpu_limit(8 * CPU_LIMIT, compress_roundtrip, arr, tol)
+    if r[0] != "ok":
+        ctx.violation("sizes:compress|did_not_terminate|%s" % (label or pattern), "CPU limit exceeded", case)
+        ctx.ev(1, 1)
+        return
+    res = r[1]
+    if res[0] == "exc":
+        ctx.violation("sizes:compress|%s_raised_%s|%s" % (res[1], res[2], label or pattern),
+                      "compress() / write / read of a representable column raised", case, observed=list(res))
+    else:
+        ctx.count("compress_chose:" + "+".join(res[2]))
+        if not exact_or_tol(arr, res[1], tol):
+            ctx.violation("sizes:compress|reads_back_different|%s" % (label or pattern),
+                          "compressed column does not read back (within tolerance)", case,
+                          observed={"encoding": res[2], "head": repr(res[1][:6])[:150]})
+        elif arr.tobytes() != snap:
+            ctx.violation("sizes:compress|input_array_modified|%s" % (label or pattern), "input changed", case)
+    ctx.count("accepted")
+    ctx.ev(1, 1)
+    ctx.outcome(("sz", pattern, n, tol, res[2:] if res[0] == "ok" else res))
+
+
+def size_chain_case(ctx, pattern, n, ci):
+    chain = SIZE_CHAINS[ci]
+    arr = size_array(pattern, n)
+    v = M.int_chain(arr.tolist(), M.DTYPE_TC[str(arr.dtype)], chain, np_range=M.DTYPE_RANGE[str(arr.dtype)],
+                    np_name=str(arr.dtype)) if n <= 300 else None
+    case = {"k": "sizes", "f": "chain", "pattern": pattern, "n": n, "ci": ci}
+    if not ctx.journal(case):
+        return
+    direct, filed, _ = run_paths(arr, chain, allow_big=False)
+    input_check(ctx, {**case, "dtype": str(arr.dtype)}, chain)
+    if direct is None:
+        ctx.count("skipped_pack_cap_observed")
+        return
+    refusable = pattern == "big_u32" and any(k == "P" for k, _ in chain)  # values beyond int32 into packing
+    if v is not None and v.cls != "accept":
+        refusable = True
+    for path, res in (("direct", direct), ("file", filed)):
+        if res[0] == "exc":
+            if not refusable:
+                ctx.violation("sizes:%s|%s_%s_raised_%s|%s" % (chain_sig(chain), path, res[1], res[2], pattern),
+                              "round trip of a representable column raised", case, observed=list(res))
+            else:
+                ctx.count("refused_observed")
+        elif not exact_or_tol(arr, res[1], 0):
+            ctx.violation("sizes:%s|%s_reads_back_different|%s" % (chain_sig(chain), path, pattern),
+                          "column does not read back", case, observed=repr(res[1][:8])[:150])
+    ctx.count("refusable" if refusable else "accepted")
+    ctx.ev(1, 1)
+    ctx.outcome(("szc", pattern, n, ci, direct[0], filed[0]))
+
+
+def size_string_table_case(ctx, variant, n, oname):
+    """String tables whose offsets / indices cross 8 and 16 bit."""
+    case = {"k": "sizes", "f": "table", "variant": variant, "n": n, "offset": oname}
+    if not ctx.journal(case):
+        return
+    if variant == "one_long_string":      # offsets [0, n, n + 1]
+        strs = ["x" * n, "a", "x" * n]
+    elif variant == "total_length":        # many 5-character strings: table length 5 * n
+        strs = ["%05d" % k for k in range(n)]
+    else:                                   # unique_count: n single different code points, indices 0 .. n-1
+        strs = [chr(0x10000 + k) for k in range(n)] + [chr(0x10000), chr(0x10000 + n - 1)]
+    arr = np.array(strs, dtype="U%d" % max(len(s) for s in strs))
+    if oname == "compress":
+        size_compress_case(ctx, "string_table", n, arr=arr, label="string_table_%s" % variant)
+        return
+    spec = ["S", {"strings": None, "data": STR_CHAINS["P1"] if variant == "unique_count" else None,
+                  "offset": STR_CHAINS[oname]}]
+    direct, filed, _ = run_paths(arr, [spec])
+    input_check(ctx, {**case, "dtype": "str"}, [spec])
+    offs_max = sum(len(s) for s in dict.fromkeys(strs))
+    refusable = (oname == "Bu8" and offs_max > 255) or (oname == "Bi8" and offs_max > 127)
+    for path, res in (("direct", direct), ("file", filed)):
+        if res[0] == "exc":
+            if refusable and path == "file":
+                ctx.count("refused_observed")
+            else:
+                ctx.violation("sizes:string_table|%s_%s_raised_%s|%s,%s" % (path, res[1], res[2], variant, oname),
+                              "string column with a large table raised", case, observed=list(res))
+        elif not exact_or_tol(arr, res[1], 0):
+            ctx.violation("sizes:string_table|%s_reads_back_different|%s,%s" % (path, variant, oname),
+                          "string column with a large table reads back different", case)
+    ctx.count("refusable" if refusable else "accepted")
+    ctx.ev(1, 1)
+    ctx.outcome(("szt", variant, n, oname, direct[0], filed[0]))
+
+
+def size_decimals_case(ctx, dtype, k, shape, tol):
+    base = 10.0 ** -k
+    vals = {"zero_and_unit": [0.0, base], "unit_and_three": [base, 3 * base],
+            "unit_and_one": [base, 1.0]}[shape]
+    arr = np.array(vals, dtype=dtype)
+    if beyond_float_range(arr.tolist(), tol, dtype):
+        ctx.count("skipped_beyond_float_range_unlisted")
+        return
+    v = compress_float_verdict(arr.tolist(), tol, dtype)
+    case = {"k": "sizes", "f": "decimals", "dtype": dtype, "k10": k, "shape": shape, "tol": tol}
+    if not ctx.journal(case):
+        return
+    r = with_cpu_limit(CPU_LIMIT, compress_roundtrip, arr, tol)
+    if r[0] != "ok":
+        ctx.violation("sizes:decimals|did_not_terminate|%s,%s" % (dtype, shape), "CPU limit exceeded", case)
+    elif r[1][0] == "exc":
+        ctx.violation("sizes:decimals|%s_raised_%s|%s,%s" % (r[1][1], r[1][2], dtype, shape),
+                      "compress() of finite floats raised", case, observed=list(r[1]))
+    elif not exact_or_tol(arr, r[1][1], tol):
+        ctx.violation("sizes:decimals|outside_tolerance|%s,%s,%s" % (dtype, shape, v.cls),
+                      "compress() result outside the tolerance", case, observed=repr(r[1][1])[:120])
+    else:
+        ctx.count("compress_chose:" + "+".join(r[1][2]))
+    ctx.count("accepted")
+    ctx.ev(1, 1)
+    ctx.outcome(("szd", dtype, k, shape, tol, r[1][2:] if r[0] == "ok" and r[1][0] == "ok" else r))
+
+
+def size_container_case(ctx, level, n):
+    """n blocks / categories / columns: names whose decimal width changes, more items than any small table."""
+    case = {"k": "sizes", "f": "container", "level": level, "n": n}
+    if not ctx.journal(case):
+        return
+    pdbx = _enc()["pdbx"]
+    nb, nc, nk = (n, 1, 1) if level == "blocks" else ((1, n, 1) if level == "categories" else (1, 1, n))
+    f = pdbx.BinaryCIFFile()
+    for b in range(nb):
+        blk = pdbx.BinaryCIFBlock()
+        for c in range(nc):
+            blk["c%d" % c] = pdbx.BinaryCIFCategory({"k%d" % k: np.array([b, c, k], dtype=np.int32) for k in range(nk)})
+        f["b%d" % b] = blk
+    try:
+        g = pdbx.BinaryCIFFile.read(io.BytesIO(file_bytes(f)))
+        ok = list(g.keys()) == ["b%d" % b for b in range(nb)]
+        for b in range(nb):
+            blk = g["b%d" % b]
+            ok = ok and list(blk.keys()) == ["c%d" % c for c in range(nc)]
+            for c in range(nc):
+                cat = blk["c%d" % c]
+                ok = ok and list(cat.keys()) == ["k%d" % k for k in range(nk)] and cat.row_count == 3
+                for k in range(nk):
+                    ok = ok and cat["k%d" % k].as_array().tolist() == [b, c, k]
+        ok = ok and g == f and f == g
+    except Exception as ex:  # noqa: BLE001
+        ctx.violation("sizes:container|raised_%s|%s" % (type(ex).__name__, level), "file with many items raised", case)
+        ctx.ev(1, 1)
+        return
+    if not ok:
+        ctx.violation("sizes:container|reads_back_different|%s" % level, "file with many items reads back different",
+                      case)
+    ctx.count("accepted")
+    ctx.ev(1, 1)
+    ctx.outcome(("szk", level, n))
+
+
+def run_sizes_shard(shard, ctx):
+    part, parts = shard["part"], shard["parts"]
+    idx = 0
+
+    def mine():
+        nonlocal idx
+        idx += 1
+        return idx % parts == part
+
+    for n in SWEEP_SMALL + SWEEP_EDGES:
+        for pattern in SIZE_PATTERNS:
+            if mine():
+                size_compress_case(ctx, pattern, n)
+                if pattern == "ramp_f64":
+                    size_compress_case(ctx, pattern, n, 1e-3)
+            if size_array(pattern, 2).dtype.kind in "iu":
+                for ci in range(len(SIZE_CHAINS)):
+                    if mine():
+                        size_chain_case(ctx, pattern, n, ci)
+    for n in (126, 127, 128, 129, 254, 255, 256, 257, 32767, 32768, 32769, 65535, 65536, 65537):
+        for variant in ("one_long_string", "total_length", "unique_count"):
+            if variant == "total_length" and n > 20000:
+                continue
+            for oname in ("default", "Bu8", "P1", "DRP", "compress"):
+                if mine():
+                    size_string_table_case(ctx, variant, n, oname)
+    for dtype in ("float32", "float64"):
+        for k in range(0, 26):
+            for shape in ("zero_and_unit", "unit_and_three", "unit_and_one"):
+                for tol in TOLS[dtype]:
+                    if mine():
+                        size_decimals_case(ctx, dtype, k, shape, tol)
+    for level in ("blocks", "categories", "columns"):
+        for n in (9, 10, 11, 99, 100, 101):
+            if mine():
+                size_container_case(ctx, level, n)
+
+
+# ---- laziness, == in both directions, key order --------------------------------
+LAZY_ACTIONS = ["touch_b1", "touch_b1_c1", "touch_b1_c1_x_array", "touch_b2_c3_w_mask", "iterate_keys",
+                "eq_with_original_first"]
+
+
+def lazy_file(perturb=None, order=0):
+    pdbx = _enc()["pdbx"]
+    x = np.array([3, -1, 70000], dtype=np.int32)
+    y = np.array(["a", "", "é b"], dtype="U3")
+    z = np.array([1.5, 0.25, -3.0])
+    w = np.array([7, 7, 7, 9], dtype=np.uint8)
+    wm = np.array([0, 1, 2, 0], dtype=np.uint8)
+    if perturb == "data_value":
+        x[1] = -2
+    elif perturb == "string_value":
+        y[1] = "b"
+    elif perturb == "float_value":
+        z[2] = -3.5
+    elif perturb == "mask_value":
+        wm[3] = 2
+    cols_c1 = [("x", pdbx.BinaryCIFColumn(pdbx.BinaryCIFData(x, [build(D()), build(B())]))),
+               ("y", pdbx.BinaryCIFColumn(y))]
+    if perturb == "extra_column":
+        cols_c1.append(("extra", pdbx.BinaryCIFColumn(np.zeros(3, dtype=np.int32))))
+    c2 = [("z", pdbx.BinaryCIFColumn(z))]
+    c3 = [("w", pdbx.BinaryCIFColumn(pdbx.BinaryCIFData(w, [build(R()), build(B())]),
+                                     None if perturb == "mask_removed" else pdbx.BinaryCIFData(wm)))]
+    if order:
+        cols_c1 = cols_c1[::-1]
+    cats_b1 = [("c1", cols_c1), ("c2", c2)]
+    if order:
+        cats_b1 = cats_b1[::-1]
+    blocks = [("b1", cats_b1), ("b2", [("c3" if perturb != "category_name" else "c4", c3)])]
+    if order:
+        blocks = blocks[::-1]
+    f = pdbx.BinaryCIFFile()
+    for bname, cats in blocks:
+        blk = pdbx.BinaryCIFBlock()
+        for cname, cols in cats:
+            cat = pdbx.BinaryCIFCategory()
+            for k, c in cols:
+                cat[k] = c
+            blk[cname] = cat
+        f[bname] = blk
+    return f
+
+
+LAZY_PERTURBATIONS = ["data_value", "string_value", "float_value", "mask_value", "mask_removed", "extra_column",
+                      "category_name"]
+
+
+def lazy_case(ctx, mask_bits, order):
+    """Every subset of forcing actions on a file that was read: keys, ==/!= in both directions against the
+    written object, an untouched second reading and perturbed files, and what it writes."""
+    pdbx = _enc()["pdbx"]
+    actions = [a for i, a in enumerate(LAZY_ACTIONS) if mask_bits >> i & 1]
+    case = {"k": "lazy", "actions": actions, "bits": mask_bits, "order": order}
+    if not ctx.journal(case):
+        return
+    f = lazy_file()
+    file_bytes(f)  # writing determines the automatic encoding parameters of f
+    raw = file_bytes(lazy_file(order=order))
+    bad = []
+    try:
+        g = pdbx.BinaryCIFFile.read(io.BytesIO(raw))
+        g2 = pdbx.BinaryCIFFile.read(io.BytesIO(raw))
+        for a in actions:
+            if a == "touch_b1":
+                g["b1"]
+            elif a == "touch_b1_c1":
+                g["b1"]["c1"]
+            elif a == "touch_b1_c1_x_array":
+                g["b1"]["c1"]["x"].as_array()
+            elif a == "touch_b2_c3_w_mask":
+                g["b2"]["c3"]["w"].mask.array
+            elif a == "iterate_keys":
+                [list(g[b].keys()) for b in g]
+            elif a == "eq_with_original_first":
+                g == f
+        if sorted(g.keys()) != ["b1", "b2"] or sorted(g["b1"].keys()) != ["c1", "c2"] or \
+                sorted(g["b1"]["c1"].keys()) != ["x", "y"] or len(g) != 2 or "b1" not in g or "c3" not in g["b2"]:
+            bad.append("keys")
+        if not (g == f):
+            bad.append("read_eq_written")
+        if not (f == g):
+            bad.append("written_eq_read")
+        if (g != f) or (f != g):
+            bad.append("ne_of_equal_files")
+        if not (g == g2 and g2 == g):
+            bad.append("eq_untouched_second_reading")
+        for p in LAZY_PERTURBATIONS:
+            fp = lazy_file(perturb=p)
+            gp = pdbx.BinaryCIFFile.read(io.BytesIO(file_bytes(fp)))
+            if (g == fp) or (fp == g) or (g == gp) or (gp == g) or not (g != fp) or not (gp != g):
+                bad.append("equal_to_perturbed_%s" % p)
+        h = pdbx.BinaryCIFFile.read(io.BytesIO(file_bytes(g)))
+        if not (h == f and f == h):
+            bad.append("rewritten_file_differs")
+        if h["b1"]["c1"]["x"].as_array().tolist() != [3, -1, 70000] or h["b2"]["c3"]["w"].mask.array.tolist() != [0, 1, 2, 0] \
+                or h["b1"]["c1"]["y"].as_array().tolist() != ["a", "", "é b"] or h["b1"]["c2"]["z"].as_array().tolist() != [1.5, 0.25, -3.0]:
+            bad.append("rewritten_arrays_differ")
+    except Exception as ex:  # noqa: BLE001
+        bad.append("raised_%s" % type(ex).__name__)
+    for b in bad[:3]:
+        ctx.violation("lazy|%s|%s" % (b, "insertion_order_reversed" if order else "same_order"),
+                      "observation of a lazily deserialised file depends on what was forced before", case)
+    ctx.count("accepted")
+    ctx.ev(1, 1)
+    ctx.outcome(("lazy", mask_bits, order, tuple(bad)))
+
+
+def run_lazy_shard(shard, ctx):
+    for bits in range(2 ** len(LAZY_ACTIONS)):
+        if bits % shard["parts"] != shard["part"]:
+            continue
+        for order in (0, 1):
+            lazy_case(ctx, bits, order)
+
+
+def audit_replay(case, ctx):
+    k = case["k"]
+    if k == "alias":
+        if case["f"] == "codec":
+            return alias_case(ctx, case["kind"], case["a"], case["ci"])
+        return alias_container_case(ctx, case["kind"], case["a"], case["masked"], case["op"])
+    if k == "flavour":
+        if case.get("f") == "params":
+            return param_flavour_case(ctx, case["kind"], case["a"], case["ci"], case["with_size"])
+        return flavour_case(ctx, case["kind"], case["a"], case["flavour"], case["ci"])
+    if k == "lazy":
+        return lazy_case(ctx, case["bits"], case["order"])
+    f = case["f"]
+    if f == "compress":
+        if case["pattern"] == "string_table":
+            raise ValueError("replay the 'table' case instead")
+        return size_compress_case(ctx, case["pattern"], case["n"], case["tol"])
+    if f == "chain":
+        return size_chain_case(ctx, case["pattern"], case["n"], case["ci"])
+    if f == "table":
+        return size_string_table_case(ctx, case["variant"], case["n"], case["offset"])
+    if f == "decimals":
+        return size_decimals_case(ctx, case["dtype"], case["k10"], case["shape"], case["tol"])
+    return size_container_case(ctx, case["level"], case["n"])
+
+
+# ---------------------------------------------------------------------------
 # contract
 # ---------------------------------------------------------------------------
 def bounds(tier):
@@ -2205,6 +3052,12 @@ def bounds(tier):
         "reuse_chains": {"int": len(REUSE_INT_CHAINS), "float": len(REUSE_FLOAT_CHAINS), "str": len(REUSE_STR_SPECS),
                          "plus": "encoding list returned by compress()"},
         "reuse_container_variants": CONTAINER_VARIANTS,
+        "alias_ops": ALIAS_OPS,
+        "flavours": FLAVOURS,
+        "size_sweep_lengths": "2..40 + %r" % (SWEEP_EDGES,),
+        "size_patterns": SIZE_PATTERNS,
+        "lazy_actions": LAZY_ACTIONS,
+        "lazy_perturbations": LAZY_PERTURBATIONS,
     }
 
 
@@ -2246,6 +3099,10 @@ def shards(tier, seed):
     add(2 if q else 8, s="shape")
     for kind in ("int", "float", "str"):
         add(4 if kind == "int" else 2, s="reuse", kind=kind)
+        out.append({"s": "alias", "kind": kind})
+        out.append({"s": "flavour", "kind": kind})
+    add(8, s="sizes")
+    add(2, s="lazy")
     # the seed rotates the processing order inside the leading (integer) block only
     n_int = sum(1 for x in out if x["s"] == "int")
     k = seed % n_int
@@ -2280,6 +3137,14 @@ def _run_shard(shard, ctx):
         run_shape_shard(shard, ctx)
     elif s == "reuse":
         run_reuse_shard(shard, ctx)
+    elif s == "alias":
+        run_alias_shard(shard, ctx)
+    elif s == "flavour":
+        run_flavour_shard(shard, ctx)
+    elif s == "sizes":
+        run_sizes_shard(shard, ctx)
+    elif s == "lazy":
+        run_lazy_shard(shard, ctx)
     else:
         raise ValueError(shard)
 
@@ -2307,6 +3172,8 @@ def replay(case, ctx):
         shapes_case(ctx, case["shape"])
     elif k == "reuse":
         reuse_replay(case, ctx)
+    elif k in ("alias", "flavour", "sizes", "lazy"):
+        audit_replay(case, ctx)
     else:
         raise ValueError(case)
 
